@@ -31,6 +31,9 @@
 (*                   Antecedent: no pressure-dependent probe attached.     *)
 (*   ShapeCp/H/S/G   one value per temperature                             *)
 (*   RaisesCp/H/S/G, Finite, ListStable (evaluation leaves the list alone) *)
+(*   DimFollowsCp/H/S/G  get_Cp/H/S/G(units) = R(units) (T[i]) x the           *)
+(*                   dimensionless value reported under the same conditions *)
+(*   VerbosePlacement / VerboseSum  (StatMech carrier, verbose=True)        *)
 (* ln P is a sensor (math.log of the logged P).  Bare values come from a   *)
 (* twin species without models evaluated at scalar T; model values from    *)
 (* calling each attached model object directly.                            *)
@@ -132,9 +135,43 @@ EvalClauses(s, e) ==
                                {e.r.G[i], e.r.G1[i], e.lnP}, 6))
             THEN {"GibbsPressure"} ELSE {})
 
+\* ---- dimensional getters (get_Cp/get_H/get_S/get_G with units): the value with units is the
+\* dimensionless value reported under the SAME conditions times R (times T[i] for H and G);
+\* e.R is pmutt.constants.R(units) (the table itself is C12's subject)
+DimOK(e, q, withT) ==
+   Len(e.dim[q]) = Len(e.Ts) /\
+   \A i \in 1..Len(e.Ts) :
+      LET x == IF withT THEN Mul(Mul(e.R, e.Ts[i]), e.r[q][i]) ELSE Mul(e.R, e.r[q][i])
+      IN CloseIn(e.dim[q][i], x, {x}, 6)
+DimClauses(e) ==
+   IF ~e.hasdim THEN {} ELSE
+   LET good(q) == e.ok[q] /\ Len(e.r[q]) = Len(e.Ts) IN
+   (IF e.okd.Cp /\ e.okd.H /\ e.okd.S /\ e.okd.G THEN {} ELSE {"RaisesDim"})
+   \cup (IF e.okd.Cp /\ good("Cp") /\ ~DimOK(e, "Cp", FALSE) THEN {"DimFollowsCp"} ELSE {})
+   \cup (IF e.okd.H /\ good("H") /\ ~DimOK(e, "H", TRUE) THEN {"DimFollowsH"} ELSE {})
+   \cup (IF e.okd.S /\ good("S") /\ ~DimOK(e, "S", FALSE) THEN {"DimFollowsS"} ELSE {})
+   \cup (IF e.okd.G /\ good("G") /\ ~DimOK(e, "G", TRUE) THEN {"DimFollowsG"} ELSE {})
+
+\* ---- StatMech verbose=True: [trans, vib, rot, elec, nucl, references, misc_1 .. misc_N]; the
+\* entry of model m is the model's own value (G: H - S) and the vector sums to the total
+VerbAt(e, q, m) == IF q = "G" THEN Sub(RouteAt(e.ms[m], "H", 1), RouteAt(e.ms[m], "S", 1))
+                   ELSE RouteAt(e.ms[m], q, 1)
+VerbOK(e, q) ==
+   /\ Len(e.verb[q]) = 6 + Len(e.ms)
+   /\ \A m \in 1..Len(e.ms) :
+         CloseIn(e.verb[q][6 + m], VerbAt(e, q, m), {VerbAt(e, q, m), e.r[q][1]}, 6)
+VerbSumOK(e, q) ==
+   CloseIn(SumSeq(e.verb[q]), e.r[q][1], {e.verb[q][i] : i \in 1..Len(e.verb[q])}, 6)
+VerbClauses(e) ==
+   IF ~e.hasverb THEN {} ELSE
+   UNION {(IF ~e.okv[q] THEN {"RaisesVerbose"} ELSE
+             (IF e.ok[q] /\ Len(e.r[q]) = 1 /\ ~e.misc_none /\ ~VerbOK(e, q) THEN {"VerbosePlacement"} ELSE {})
+             \cup (IF e.ok[q] /\ Len(e.r[q]) = 1 /\ ~VerbSumOK(e, q) THEN {"VerboseSum"} ELSE {}))
+          : q \in {"Cp", "H", "S", "G"}}
+
 Clauses(s, e) ==
    CASE e.ev \in {"construct", "copy", "deepcopy", "reload", "attach"} -> LifeClauses(s, e)
-     [] e.ev = "eval" -> EvalClauses(s, e)
+     [] e.ev = "eval" -> EvalClauses(s, e) \cup DimClauses(e) \cup VerbClauses(e)
      [] OTHER -> {"UnknownEvent"}
 
 Step(s, e) ==
